@@ -106,9 +106,7 @@ def run_tlc(module, cfg_text, *, workers=None, timeout=1200, env=None, extra=(),
     """
     wd = subdir("tlc-" + (name or module) + "-%d" % int(time.time() * 1000 % 10**9))
     mod = _stage(module, cfg_text, wd)
-    cmd = ["java", "-XX:+UseParallelGC"]
-    if heap:
-        cmd.append("-Xmx" + heap)
+    cmd = ["java", "-XX:+UseParallelGC", "-Xmx" + (heap or "8g")]
     if dfs:
         cmd.append("-Dtlc2.tool.queue.IStateQueue=StateDeque")
     cmd += ["-cp", TLA_JAR, "tlc2.TLC", "-metadir", os.path.join(wd, "meta"), "-noGenerateSpecTE",
@@ -307,7 +305,7 @@ def validate_traces(trace_module, traces, *, cfg_extra="", shards=None, timeout=
         tf = os.path.join(wd, "traces.json")
         with open(tf, "w") as fh:
             json.dump(ch, fh)
-        cmd = ["java", "-XX:+UseParallelGC", "-Xss16m"]
+        cmd = ["java", "-XX:+UseParallelGC", "-Xss16m", "-Xmx3g"]
         if dfs:
             cmd.append("-Dtlc2.tool.queue.IStateQueue=StateDeque")
         cmd += ["-cp", TLA_JAR, "tlc2.TLC", "-metadir", os.path.join(wd, "meta"),
@@ -450,6 +448,16 @@ def _pm_call(arg):
     return _PM_FUNC(arg)
 
 
+def _pm_init():
+    # a runaway worker gets MemoryError instead of starving the machine
+    try:
+        import resource
+        lim = int(os.environ.get("VERIF_WORKER_MEM_GB", "3")) * (1 << 30)
+        resource.setrlimit(resource.RLIMIT_AS, (lim, lim))
+    except Exception:
+        pass
+
+
 def pmap(func, items, nproc=None, chunksize=None):
     """Map func over items in forked workers (func may be a closure; it is inherited by fork)."""
     global _PM_FUNC
@@ -460,7 +468,7 @@ def pmap(func, items, nproc=None, chunksize=None):
     import multiprocessing as mp
     _PM_FUNC = func
     ctx = mp.get_context("fork")
-    with ctx.Pool(nproc) as pool:
+    with ctx.Pool(nproc, initializer=_pm_init) as pool:
         return pool.map(_pm_call, items, chunksize or max(1, len(items) // (nproc * 8)))
 
 
